@@ -16,8 +16,8 @@ from ..modelcheck import add_models
 
 def plans(tier):
     if tier == "quick":
-        return [("d1-red", 12, 2), ("d1-reduce-1d7", 64, 2), ("d2-red-index", 2, 2), ("d2-index-red", 2, 4), ("d1-win-q", 128, 3)]
-    return [("d1-red", 64, 1), ("d1-reduce-1d7", 64, 1), ("d1-reduce-2d", 32, 1), ("d2-red-index", 4, 1), ("d2-index-red", 4, 1), ("d1-win", 128, 2)]
+        return [("d1-red", 12, 2), ("d1-reduce-1d7", 64, 2), ("d2-red-index", 2, 2), ("d2-index-red", 2, 4), ("d1-win-q", 128, 3), ("d1-red-long", 4, 2)]
+    return [("d1-red", 64, 1), ("d1-reduce-1d7", 64, 1), ("d1-reduce-2d", 32, 1), ("d2-red-index", 4, 1), ("d2-index-red", 4, 1), ("d1-win", 128, 2), ("d1-red-long", 4, 1)]
 
 
 def run(chk):
@@ -25,9 +25,8 @@ def run(chk):
     try:
         add_models(chk, ["TreeReduce:all-trees"])
         for name, maxvar, stride in progcheck.dev_filter(plans(chk.tier)):
-            kw = dict(progcheck.CORPORA[name])
-            keep = kw.pop("keep", None)
-            kw.pop("observe_all", None)
+            kw, flags = progcheck.corpus_kwargs(name)
+            keep = flags["keep"]
             behs, res = replay.generate_programs(rundir=rd, timeout=3000, **kw)
             chk.add_tlc(res, f"gen:{name}")
             if keep is not None:
